@@ -384,6 +384,84 @@ func c04Constructed(c *Case) {
 	}
 }
 
+// ---- values whose parts are shared and resized through one of several references: json(v) and -o must
+// describe the same value that print shows (law on the implementation alone; the reference model is not
+// consulted because the length seen through a second reference is the known finding K-ALIAS)
+
+func c04Shared(c *Case) {
+	rng := c.Rng
+	names := []string{"a", "b", "d"}
+	var st []string
+	st = append(st, "a = [1, 2, 3]", "b = [4]", "d = []", "o = {}")
+	num := 10
+	for n := 4 + rng.IntN(10); n > 0; n-- {
+		x, y := names[rng.IntN(3)], names[rng.IntN(3)]
+		num++
+		switch rng.IntN(10) {
+		case 0, 1:
+			st = append(st, x+" = "+y)
+		case 2, 3:
+			st = append(st, fmt.Sprintf("%s.push(%d)", x, num))
+		case 4:
+			st = append(st, x+".pop()")
+		case 5:
+			st = append(st, x+".popfirst()")
+		case 6:
+			st = append(st, fmt.Sprintf("if (%s.length() > 0) { %s[0] = %d }", x, x, num))
+		case 7:
+			st = append(st, fmt.Sprintf("o = {k: %s, l: %s}", x, y))
+		case 8:
+			st = append(st, fmt.Sprintf("%s.push(%s)", x, y))
+		case 9:
+			st = append(st, fmt.Sprintf("%s = [%s, %s]", x, x, y))
+		}
+	}
+	prog := "{ " + strings.Join(st, "\n") + "\nv = [a, b, d, o, [a, a], {x: b, y: b}]; print v; print json(v); $.out = v }"
+	lib := RunLib(prog, []InFile{{Name: "in.json", Data: []byte("{}")}}, nil, RunOpts{WantRoot: true, Budget: 100000})
+	c.Count("shared_and_resized_programs")
+	rp := map[string]any{"program": prog}
+	if lib.Class == "runtime" && (strings.Contains(lib.Msg, "circular") || strings.Contains(string(lib.Stdout), "<circular")) {
+		c.Inconclusive("history-built-a-cycle")
+		return
+	}
+	if strings.Contains(string(lib.Stdout), "<circular") {
+		c.Inconclusive("history-built-a-cycle")
+		return
+	}
+	if lib.Class != "ok" {
+		c.Violation(fmt.Sprintf("program ended as %s (%s %s) | %s", lib.Class, lib.Msg, lib.PanicVal, prog), nil, rp)
+		return
+	}
+	lines := strings.SplitN(string(lib.Stdout), "\n", 2)
+	if len(lines) < 2 {
+		c.Violation("expected two output lines | "+prog, nil, rp)
+		return
+	}
+	shown, _, err1 := decodeOne([]byte(lines[0]))
+	js, _, err2 := decodeOne([]byte(lines[1]))
+	if err1 != nil {
+		c.Inconclusive("print-rendering-not-json")
+		return
+	}
+	c.NonTrivial(prog)
+	if err2 != nil || !jsonEqual(shown, js) {
+		rp["print"], rp["json"] = lines[0], lines[1]
+		c.Violation(fmt.Sprintf("json(v) does not describe the value print shows: print %s | json %s | program %s", clip(lines[0], 120), clip(strings.ReplaceAll(lines[1], "\n", " "), 160), prog), nil, rp)
+		return
+	}
+	c.Held()
+	if lib.HasRoot && lib.RootErr == "" {
+		root, _, err := decodeOne([]byte(lib.RootJSON))
+		ro, _ := root.(map[string]any)
+		if err != nil || ro == nil || !jsonEqual(shown, ro["out"]) {
+			rp["print"], rp["root"] = lines[0], lib.RootJSON
+			c.Violation(fmt.Sprintf("the document written by -o does not hold the value print shows: print %s | -o %s | program %s", clip(lines[0], 120), clip(strings.ReplaceAll(lib.RootJSON, "\n", " "), 160), prog), nil, rp)
+			return
+		}
+		c.Held()
+	}
+}
+
 func onlyJsonUnset(tags map[string]bool) bool {
 	for t := range tags {
 		if strings.HasPrefix(t, "pinned:") && t != "pinned:json-unset" && t != "pinned:copy-unset" {
@@ -488,6 +566,8 @@ func c04Run(c *Case) {
 	switch {
 	case c.Idx == 0:
 		c04Rejected(c)
+	case c.Idx <= nc && c.Idx%4 == 0:
+		c04Shared(c)
 	case c.Idx <= nc:
 		c04Constructed(c)
 	default:
@@ -498,7 +578,7 @@ func c04Run(c *Case) {
 func init() {
 	register(&Prop{
 		ID: "C04", Level: "exploration",
-		Rule:          "sampled documents written as JSON TEXT by a hostile generator (empty arrays/objects at every depth, nesting to 200, every escape, \\u0000, surrogate pairs, lone surrogates, non-ASCII, invalid UTF-8, keys that are method names or duplicated, numbers of every class: -0, subnormals, 2^53+-1, 1e308, 5e-324, 50-digit integers, long fractions, random bit patterns) x 13 programs that do not modify the document (empty program, empty rule, read-only patterns, copies, for-in, -r $ / $.a / $[0]): the -o JSON must be valid UTF-8 JSON and decode to a value equal (float64 bits, strings after the decoder's own UTF-8 repair, key sets) to the input as read, resp. to the selected sub-document; a sample goes through the binary's -o FILE; thorough adds `jq -cS .` on input and output as a second opinion. Constructed values (auto-created containers, shared structures) printed with json() must parse back to the reference model's value. Enumerated: the 22-shape cyclic/shared table through json(), -o in the library and -o - in the binary (cycles: error, nothing written; shared-acyclic: written in full), and 8 inexpressible values (functions, natives, +-Inf, NaN, nested). Non-trivial = document with an escape, a non-integer number or >= 2 containers; distinct by document+program.",
+		Rule:          "sampled documents written as JSON TEXT by a hostile generator (empty arrays/objects at every depth, nesting to 200, every escape, \\u0000, surrogate pairs, lone surrogates, non-ASCII, invalid UTF-8, keys that are method names or duplicated, numbers of every class: -0, subnormals, 2^53+-1, 1e308, 5e-324, 50-digit integers, long fractions, random bit patterns) x 13 programs that do not modify the document (empty program, empty rule, read-only patterns, copies, for-in, -r $ / $.a / $[0]): the -o JSON must be valid UTF-8 JSON and decode to a value equal (float64 bits, strings after the decoder's own UTF-8 repair, key sets) to the input as read, resp. to the selected sub-document; a sample goes through the binary's -o FILE; thorough adds `jq -cS .` on input and output as a second opinion. Values whose parts are shared and resized through one of several references (copies, push / pop / popfirst through either name, arrays pushed into arrays): json(v) and the -o document must decode to the value `print v` shows (law on the implementation alone). Constructed values (auto-created containers, shared structures) printed with json() must parse back to the reference model's value. Enumerated: the 22-shape cyclic/shared table through json(), -o in the library and -o - in the binary (cycles: error, nothing written; shared-acyclic: written in full), and 8 inexpressible values (functions, natives, +-Inf, NaN, nested). Non-trivial = document with an escape, a non-integer number or >= 2 containers; distinct by document+program.",
 		NumCases:      c04Cases,
 		Run:           c04Run,
 		MinConclusive: func(tier string) int { return 10000 },
